@@ -25,11 +25,12 @@ DocOf(j) ==
     [version |-> j.version, binmark |-> j.binmark, trailer |-> DictOfPairs(j.trailer), max_id |-> j.max_id,
      objs |-> [i \in 1..Len(j.objects) |-> [num |-> j.objects[i][1], gen |-> j.objects[i][2], val |-> ObjOf(j.objects[i][3])]]]
 
-\* The in-domain restriction of C01 (DESIGN C01 "Not decided"): distinct object numbers, max_id
-\* not below any object number, binary mark bytes >= 128, no bookkeeping objects.
+\* The in-domain restriction of C01 (DESIGN C01 "Not decided"): distinct object numbers (a file has one
+\* entry per number), numbers >= 1.  (A max_id below an object number - set_object and direct inserts do not
+\* maintain it - is INSIDE the domain since the third round: saving must cover such objects, /repo 793de02.)
 InDomain(doc) ==
     /\ \A i, j \in 1..Len(doc.objs) : doc.objs[i].num = doc.objs[j].num => i = j
-    /\ \A i \in 1..Len(doc.objs) : doc.objs[i].num <= doc.max_id /\ doc.objs[i].num >= 1
+    /\ \A i \in 1..Len(doc.objs) : doc.objs[i].num >= 1
 
 \* numbers of objects in doc whose value does not match the view, or that are absent from it
 BadObjects(doc, rd) ==
